@@ -240,6 +240,9 @@ impl Engine for Multi {
         }
         self.parts.get(p).map_or(false, |e| e.1.abort_is_violation(&b, class))
     }
+    fn wrap_tracked(&self, idx: u64, body: serde_json::Value) -> serde_json::Value {
+        json!({"part": self.part_of(idx), "body": body})
+    }
     fn size_of(&self, body: &serde_json::Value) -> usize {
         let (p, b) = Multi::split(body);
         if body.get("part").is_none() {
